@@ -526,6 +526,10 @@ def r6_transitivity(repo):
             obs.append(Ob("C06-R6", "%s:recursion-through-every-supertype" % f.qualname, _w(f, c), not bad and one_gen,
                           "the transitive step must recurse through every supertype of `self` (only `%s != self` may be "
                           "filtered out); iterates %s with filters %s" % (tv, it, filters)))
+    # ... and the closure itself: Type.get_supertypes is a worklist closure over `.supertypes`
+    from .c19 import closure_obligations
+    obs += closure_obligations(repo.method("src.ir.types.Type", "get_supertypes", inherited=False), "C06-R6",
+                               "Type.get_supertypes", "self", "supertypes")
     obs.append(Ob("C06-R6", "nominal-recursion-sites>=1", "src/ir/types.py", n >= 1,
                   "%d `any(st.is_subtype(other) for st in <supertypes>)` sites" % n))
     return obs
